@@ -244,7 +244,7 @@ func TestDomainSetLoaderSequence(t *testing.T) {
 			c := genDomCase(rt)
 			var rules []routex.Rule
 			for _, r := range c.rules {
-				if r.Kind == routex.KindRegexp && slicesContains(badRegexpPool, r.Text) {
+				if r.Kind == routex.KindRegexp && isBadRegexp(r.Text) {
 					continue
 				}
 				rules = append(rules, r)
